@@ -569,6 +569,11 @@ fn output_state(before: &Snapshot, after: &Snapshot, rel: &Option<String>, abs: 
         if untouched || right.is_ok() {
             return if untouched { PathState::Untouched } else { PathState::ExactlyRight };
         }
+        // ... or cleared away: "no file" is as right for an empty image after a stale file was
+        // removed as it is when there never was one
+        if matches!(a, None) {
+            return PathState::ExactlyRight;
+        }
         return PathState::Wrong(format!("empty image, but the path was altered and does not decode to the empty image: {}", right.unwrap_err()));
     }
     match right {
